@@ -788,6 +788,7 @@ func DrawNoise(rt *rapid.T) am.Noise {
 	return am.Noise{
 		InlineMD:        inl,
 		LeadingZeros:    rapid.IntRange(0, 3).Draw(rt, "n.leadingzeros") == 0,
+		EmptyQuoted:     rapid.IntRange(0, 4).Draw(rt, "n.emptyquoted") == 0,
 		AlwaysQuote:     rapid.IntRange(0, 3).Draw(rt, "n.quote") == 0,
 		EscapePrintable: rapid.IntRange(0, 3).Draw(rt, "n.escape") == 0,
 		Explicit:        rapid.Bool().Draw(rt, "n.explicit"),
